@@ -876,7 +876,13 @@ fn resolve_git_commondir(
     if !dot_git_line.starts_with("gitdir: ") {
         return Err(None);
     }
-    let real_git_dir = PathBuf::from(&dot_git_line["gitdir: ".len()..]);
+    // A relative path is relative to the directory holding the `.git` file.
+    // (If nothing is there, take the path as written, as we used to do.)
+    let real_git_dir = {
+        let as_written = &dot_git_line["gitdir: ".len()..];
+        let joined = dir.join(as_written);
+        if joined.exists() { joined } else { PathBuf::from(as_written) }
+    };
     let git_commondir_file = || real_git_dir.join("commondir");
     let file = match File::open(git_commondir_file()) {
         Ok(file) => io::BufReader::new(file),
